@@ -13,6 +13,7 @@ type Fail struct {
 	Msg  string
 	Pos  token.Pos
 	Leaf string // operand the failure is about (alpha-renamed)
+	Root string // the record member (bbp.F) being coded when it was found
 }
 
 // Alloc is an allocation sized by a count taken from the wire.
@@ -51,11 +52,12 @@ type Lifter struct {
 	Allocs  []Alloc
 	Lim     Limiter
 	Returns []string // rendered operands of return statements
+	curRoot string
 	Safe    bool     // reader: checks are required
 }
 
 func (l *Lifter) fail(rule, leaf string, pos token.Pos, format string, a ...interface{}) {
-	l.Fails = append(l.Fails, Fail{Rule: rule, Msg: sprintf(format, a...), Pos: pos, Leaf: leaf})
+	l.Fails = append(l.Fails, Fail{Rule: rule, Msg: sprintf(format, a...), Pos: pos, Leaf: leaf, Root: l.curRoot})
 }
 
 // ---- operands -------------------------------------------------------------
@@ -121,7 +123,15 @@ func (l *Lifter) op(e ast.Expr) string {
 			return t
 		}
 	}
-	return l.rename(Canon(e))
+	r := l.rename(Canon(e))
+	if strings.HasPrefix(r, "bbp.") || strings.HasPrefix(r, "*bbp.") {
+		root := r
+		if i := strings.IndexAny(root, "[ "); i >= 0 {
+			root = root[:i]
+		}
+		l.curRoot = root
+	}
+	return r
 }
 
 func (l *Lifter) isIdent(e ast.Expr, name string) bool {
